@@ -25,7 +25,7 @@ class Mem(AsyncStreamTransport):
 async def main():
     backend=AsyncIOBackend()
     a,b=Mem(backend),Mem(backend); a.peer=b; b.peer=a
-    sctx=ssl.SSLContext(ssl.PROTOCOL_TLS_SERVER); sctx.load_cert_chain("c.pem","k.pem")
+    sctx=ssl.SSLContext(ssl.PROTOCOL_TLS_SERVER); import os; H=os.path.dirname(os.path.abspath(__file__)); sctx.load_cert_chain(os.path.join(H,"tls_test_cert.pem"),os.path.join(H,"tls_test_key.pem"))
     cctx=ssl.SSLContext(ssl.PROTOCOL_TLS_CLIENT); cctx.check_hostname=False; cctx.verify_mode=ssl.CERT_NONE
     srv_t=asyncio.ensure_future(AsyncTLSStreamTransport.wrap(b,sctx,server_side=True))
     cli=await AsyncTLSStreamTransport.wrap(a,cctx,server_hostname="localhost")
@@ -36,10 +36,14 @@ async def main():
     a.gate.clear()                          # the wire stops accepting: a sender will park holding the TLS send lock
     w=asyncio.ensure_future(cli.send_all(b"x"*10))
     await asyncio.sleep(0.05)
+    # (since the F10 fix the reader only waits for the send lock when the write BIO holds pending output: a second sender,
+    # queued behind the first one, has produced its record but cannot flush it yet)
+    w2=asyncio.ensure_future(cli.send_all(b"y"*10))
+    await asyncio.sleep(0.05)
     with backend.move_on_after(0.1) as scope:
         print("R2:", await cli.recv(5))
     print("R2 timed out:", scope.cancelled_caught())
-    a.gate.set(); await w
+    a.gate.set(); await w; await w2
     await srv.send_all(b"!end!")
     await asyncio.sleep(0.05)
     print("R3:", await cli.recv(100), " (stream sent was hello world !end!)")
